@@ -94,7 +94,7 @@ func (re *Regexp) FindString(s string) string {
 	if m == nil {
 		return ""
 	}
-	return m.String()
+	return captureText(&m.Capture, s)
 }
 
 // FindStringIndex returns a two-element slice defining the location of the
@@ -149,7 +149,7 @@ func (re *Regexp) FindStringSubmatch(s string) []string {
 	if m == nil {
 		return nil
 	}
-	return matchStrings(m)
+	return matchStrings(m, s)
 }
 
 // FindStringSubmatchIndex returns a slice holding the byte index pairs of the
@@ -209,7 +209,7 @@ func (re *Regexp) FindAllString(s string, n int) []string {
 	}
 	var out []string
 	re.forEachStringMatch(s, n, func(m *regexp2.Match) {
-		out = append(out, m.String())
+		out = append(out, captureText(&m.Capture, s))
 	})
 	return out
 }
@@ -254,7 +254,7 @@ func (re *Regexp) FindAllStringSubmatch(s string, n int) [][]string {
 	}
 	var out [][]string
 	re.forEachStringMatch(s, n, func(m *regexp2.Match) {
-		out = append(out, matchStrings(m))
+		out = append(out, matchStrings(m, s))
 	})
 	return out
 }
@@ -304,15 +304,22 @@ func (re *Regexp) forEachStringMatch(s string, n int, f func(*regexp2.Match)) {
 	}
 }
 
-func matchStrings(m *regexp2.Match) []string {
+func matchStrings(m *regexp2.Match, s string) []string {
 	groups := m.Groups()
 	out := make([]string, len(groups))
 	for i := range groups {
 		if len(groups[i].Captures) > 0 {
-			out[i] = groups[i].String()
+			out[i] = captureText(&groups[i].Capture, s)
 		}
 	}
 	return out
+}
+
+// captureText returns the bytes of s covered by c. Unlike c.String(), which is
+// rebuilt from the decoded runes, it keeps invalid UTF-8 in s as it is.
+func captureText(c *regexp2.Capture, s string) string {
+	start, length := c.ByteRange()
+	return s[start : start+length]
 }
 
 func matchIndexes(m *regexp2.Match) []int {
